@@ -960,10 +960,24 @@ type Program struct {
 
 // Idx0 implements Node.
 func (p *Program) Idx0() file.Idx {
+	if len(p.Body) == 0 {
+		return p.emptyIdx()
+	}
 	return p.Body[0].Idx0()
+}
+
+// emptyIdx is where a program without statements begins and ends: the start of its file.
+func (p *Program) emptyIdx() file.Idx {
+	if p.File != nil {
+		return file.Idx(p.File.Base())
+	}
+	return 1
 }
 
 // Idx1 implements Node.
 func (p *Program) Idx1() file.Idx {
+	if len(p.Body) == 0 {
+		return p.emptyIdx()
+	}
 	return p.Body[len(p.Body)-1].Idx1()
 }
